@@ -29,6 +29,13 @@ def choose (n k : Nat) : Nat := if k ≤ n then fact n / (fact k * fact (n - k))
 def zpowR (x : Rat) (k : Int) : Rat :=
   if k ≥ 0 then x ^ k.toNat else 1 / x ^ (-k).toNat
 
+/-- `x ** k` is *defined* in Python arithmetic: not a zero base with a negative exponent (float `0.0 ** -1` is `inf` with a
+    warning / ZeroDivisionError, and `0 * inf = nan`; the totalised `zpowR 0 (-1)` is `0`) -/
+def zpowOk (x : Rat) (k : Int) : Bool := decide (0 ≤ k) || decide (x ≠ 0)
+
+/-- `x / y` is defined: the denominator is not zero -/
+def divOk (y : Rat) : Bool := decide (y ≠ 0)
+
 /-- `scipy.special.comb(n, k)` for integers -/
 def combZ (n k : Int) : Rat :=
   if 0 ≤ k ∧ k ≤ n then (choose n.toNat k.toNat : Rat) else 0
